@@ -84,6 +84,11 @@ class TlcResult:
         self.ok = self.finished and not (self.inv_violated or self.deadlock or self.post_false or self.prop_violated or self.error)
 
 
+def dbg(msg):
+    if os.environ.get("VERIF_DEBUG"):
+        print("[%s] %s" % (time.strftime("%H:%M:%S"), msg), file=sys.stderr)
+
+
 def tlc(module, cfg=None, workers=1, env=None, timeout=600, extra=(), cwd=None, metadir=None, java_opts=(), simulate=None):
     """Run TLC on spec/<module>.tla. Returns TlcResult. Raises Infra on timeout/parse failure."""
     cwd = cwd or SPEC
@@ -108,6 +113,7 @@ def tlc(module, cfg=None, workers=1, env=None, timeout=600, extra=(), cwd=None, 
         raise Infra("TLC timeout on %s after %ds" % (module, timeout))
     shutil.rmtree(metadir, ignore_errors=True)
     r = TlcResult(p.stdout, p.returncode, time.time() - t0)
+    dbg("tlc %s %.1fs distinct=%d" % (module, r.wall, r.distinct))
     if "Parsing or semantic analysis failed" in p.stdout or "Error: TLC threw an unexpected exception" in p.stdout and not r.inv_violated:
         raise Infra("TLC failed on %s:\n%s" % (module, p.stdout[-3000:]))
     return r
@@ -174,6 +180,8 @@ def convert_events(evs):
                 e[f] = val2ints(e[f])
         if "src" in e and isinstance(e["src"], str):
             e["src"] = src2rec(e["src"])
+        if e.get("e") == "RMeta":
+            e["complete"] = True
         out.append(e)
     return out
 
@@ -279,8 +287,10 @@ def finish(ctx, level, extra_cov=None, rule=None):
     json.dump(ev, open(os.path.join(VERIF, "evidence", ctx.pid + ".json"), "w"), indent=1)
     for k in ctx.known:
         print(k)
-    for v in ctx.violations:
+    for v in ctx.violations[:12]:
         print("VIOLATION property=%s replay=%s" % (ctx.pid, v["replay"]))
-        print("  " + v["what"])
+        print("  " + v["what"][:600])
+    if len(ctx.violations) > 12:
+        print("(%d further violations not listed; replays under %s)" % (len(ctx.violations) - 12, os.path.dirname(ctx.violations[0]["replay"])))
     ctx.cleanup()
     return 1 if ctx.violations else 0
